@@ -6,3 +6,11 @@
 //! reach existing code; it never changes behaviour.
 
 pub use crate::storage::verif as storage;
+
+/// Evaluate a (column-index based) expression on a chunk with the executor's `Evaluator`.
+pub fn eval_expr(
+    expr: &crate::planner::RecExpr,
+    chunk: &crate::array::DataChunk,
+) -> Result<crate::array::ArrayImpl, crate::types::ConvertError> {
+    crate::executor::VerifEvaluator::new(expr).eval(chunk)
+}
